@@ -213,8 +213,8 @@ where
     }
     if !values {
         // C20: every point API for every index, whatever it returns
-        if stored_len > v.real_stored_len() && v.raw().is_some() && crate::common::kf::active("KF-C20-1") {
-            // known finding: stored-only views of a raw vector whose logical stored length
+        if stored_len > v.real_stored_len() && !sut.cfg.fmt.is_compressed() && crate::common::kf::active("KF-C20-1") {
+            // known finding: stored-only views of a raw vector (incl. EagerVec around one) whose logical stored length
             // exceeds the region (after rolling back a truncating commit, before the next write)
             obs.exclude("KF-C20-1");
             return Ok(());
